@@ -147,3 +147,16 @@ MUTANTS += [
     {"id": "C03-fast-path-emits-buffer", "prop": "C03", "expect": "LONGEST",
      "edits": [(_D, _REC, _fast(clear_buf="let raw = std::mem::take(&mut self.buffer);", ret="Some(event.and(Err(raw)))"))]},
 ]
+
+
+# ---- round 4 (C09-K): the counter as `index + 1` of an enumerate()d traversal
+MUTANTS += [
+    {"id": 'C03-benign-counter-from-enumerate', "prop": "C03", "benign": True,
+     "edits": [("src/decoder.rs", '        for byte in buf.fill_buf()?.iter() {\n            consume += 1;\n', '        for (index, byte) in buf.fill_buf()?.iter().enumerate() {\n            consume = index + 1;\n')]},
+    {"id": 'C03-benign-counter-from-enumerate-swapped', "prop": "C03", "benign": True,
+     "edits": [("src/decoder.rs", '        for byte in buf.fill_buf()?.iter() {\n            consume += 1;\n', '        for (at, byte) in buf.fill_buf()?.iter().enumerate() {\n            let seen = 1 + at;\n            consume = seen;\n')]},
+    {"id": 'C03-counter-from-enumerate-off-by-one', "prop": "C03", "expect": 'FOLD',
+     "edits": [("src/decoder.rs", '        for byte in buf.fill_buf()?.iter() {\n            consume += 1;\n', '        for (index, byte) in buf.fill_buf()?.iter().enumerate() {\n            consume = index;\n')]},
+    {"id": 'C03-counter-from-enumerate-plus-two', "prop": "C03", "expect": 'FOLD',
+     "edits": [("src/decoder.rs", '        for byte in buf.fill_buf()?.iter() {\n            consume += 1;\n', '        for (index, byte) in buf.fill_buf()?.iter().enumerate() {\n            consume = index + 2;\n')]},
+]
